@@ -370,10 +370,10 @@ fn run(a: &Args) -> i32 {
         }
     }
 
-    // ---- thorough: every loop-free digraph on 5 nodes (all library); every DAG among them again with
+    // ---- both tiers: every loop-free digraph on 5 nodes (all library); every DAG among them again with
     //      all-contract / exactly-one-contract labellings and with every vacant-slot position
-    let mut five_note = "not run in the quick tier".to_string();
-    if a.tier == Tier::Thorough {
+    let five_note;
+    {
         let n = 5usize;
         let pairs: Vec<(usize, usize)> = (0..n)
             .flat_map(|x| (0..n).filter(move |&y| y != x).map(move |y| (x, y)))
@@ -425,6 +425,96 @@ fn run(a: &Args) -> i32 {
         five_note = format!("all {nmasks} loop-free digraphs on 5 nodes");
     }
 
+    // ---- thorough: every labelled DAG on 6 nodes (built by extending every 5-node DAG with a sixth node in all
+    //      4^5 ways and keeping the acyclic results), and for each of them every single back edge that closes a
+    //      cycle ("injected cycle": an edge x→y between distinct nodes, not present, with x reachable from y)
+    let mut six_note = "not run in the quick tier".to_string();
+    if a.tier == Tier::Thorough {
+        let n = 6usize;
+        let pairs5: Vec<(usize, usize)> = (0..5usize)
+            .flat_map(|x| (0..5usize).filter(move |&y| y != x).map(move |y| (x, y)))
+            .collect();
+        let dags5: Vec<Vec<(usize, usize, bool)>> = (0..1usize << pairs5.len())
+            .map(|mask| {
+                pairs5
+                    .iter()
+                    .enumerate()
+                    .filter(|(i, _)| mask & (1 << i) != 0)
+                    .map(|(_, p)| (p.0, p.1, false))
+                    .collect::<Vec<_>>()
+            })
+            .filter(|el| !is_cyclic(5, el))
+            .collect();
+        if dags5.len() as u64 != dag_count(5) {
+            vhcore::machinery_failure("5-node DAG enumeration does not match Robinson's count");
+        }
+        let shards = 512usize;
+        let per = dags5.len().div_ceil(shards);
+        let accs = vhcore::par_map_idx(shards, a.jobs, |s| {
+            let mut acc = Acc::default();
+            let mut injected = 0u64;
+            let lo = (s * per).min(dags5.len());
+            let hi = ((s + 1) * per).min(dags5.len());
+            for d in &dags5[lo..hi] {
+                for m in 0..1usize << 10 {
+                    let mut el = d.clone();
+                    for j in 0..5 {
+                        if m & (1 << j) != 0 {
+                            el.push((5, j, false));
+                        }
+                        if m & (1 << (5 + j)) != 0 {
+                            el.push((j, 5, false));
+                        }
+                    }
+                    if is_cyclic(n, &el) {
+                        continue;
+                    }
+                    let base = Case { n, edges: el, hole: None };
+                    acc.run(&base, &member);
+                    for lab in labellings(n, base.edges.len()).into_iter().skip(1) {
+                        let mut c = base.clone();
+                        for (e, &k) in c.edges.iter_mut().zip(&lab) {
+                            e.2 = k;
+                        }
+                        acc.run(&c, &member);
+                        injected += 1;
+                    }
+                    for hole in 0..=n {
+                        let mut c = base.clone();
+                        c.hole = Some(hole);
+                        acc.run(&c, &member);
+                        injected += 1;
+                    }
+                    for x in 0..n {
+                        for y in 0..n {
+                            if x == y || base.edges.iter().any(|e| e.0 == x && e.1 == y) {
+                                continue;
+                            }
+                            let mut c = base.clone();
+                            c.edges.push((x, y, false));
+                            if is_cyclic(n, &c.edges) {
+                                acc.run(&c, &member);
+                                injected += 1;
+                            }
+                        }
+                    }
+                }
+            }
+            (acc, injected)
+        });
+        let mut injected_total = 0u64;
+        for (acc, injected) in accs {
+            injected_total += injected;
+            total.merge(acc);
+        }
+        expected_cases += dag_count(6) + injected_total;
+        six_note = format!(
+            "all {} labelled DAGs on 6 nodes, each all-library, all-contract, with exactly one contract edge (every choice), with every vacant-slot position, and with every single cycle-closing back edge ({} derived cases)",
+            dag_count(6),
+            injected_total
+        );
+    }
+
     // ---- vacuity / enumerator guards
     if total.evaluations != expected_cases {
         vhcore::machinery_failure(&format!(
@@ -433,7 +523,7 @@ fn run(a: &Args) -> i32 {
         ));
     }
     if total.bad.is_empty() {
-        let top = if a.tier == Tier::Thorough { 5 } else { 4 };
+        let top = if a.tier == Tier::Thorough { 6 } else { 5 };
         for n in 1..=top {
             let got = total.dags_all_library_no_hole.get(&n).copied().unwrap_or(0);
             if got != dag_count(n as u64) {
@@ -479,10 +569,11 @@ fn run(a: &Args) -> i32 {
             "labellings": "n<=3: every library/contract labelling; n=4: all-library, all-contract, exactly one contract edge (every choice)",
             "vacant_slot": "every edge set (all-library) additionally with a node added+removed at each of the n+1 slot positions",
             "five_nodes": five_note,
+            "six_nodes": six_note,
         }),
     );
     rep.set("exhaustive", true);
-    rep.assume("node payloads (package name/source) do not influence compilation_order; all nodes are member packages p0..p4");
+    rep.assume("node payloads (package name/source) do not influence compilation_order; all nodes are member packages p0..p5");
     rep.assume("contract edges carry distinct non-zero salts; salt values are not varied further");
     rep.finish()
 }
@@ -520,6 +611,9 @@ fn replay(a: &Args) -> i32 {
 }
 
 fn main() {
+    // anyhow captures a backtrace for every `Err` when RUST_BACKTRACE is set; the cyclic half of the space is
+    // millions of errors and the capture serialises all threads. The error's text is all the oracle reads.
+    std::env::set_var("RUST_LIB_BACKTRACE", "0");
     let a = vhcore::parse_args();
     vhcore::silence_panics();
     let code = match a.cmd.as_str() {
